@@ -80,20 +80,7 @@ def run_shape(shape, tier):
             # stability of the (cached) sets across library calls: selection, compile, and a join that carries the predicate
             _ = it.convert_predicate(sel.predicate)
             _ = sel.columns_required
-            from ..prog import add_abstract_leaf
-            lcols = tuple(sorted(declared | {"a"}))
-            L = add_abstract_leaf(env, "L", lcols if "c" not in lcols else tuple(c for c in lcols if c != "c") or ("a",), "it1", None)
-            R = add_abstract_leaf(env, "R", ("a", "c"), "it1", None)
-            try:
-                if declared <= ({t.qualified_name for t in L.columns} | {"a", "c"}):
-                    j = L.join(R, obj)
-                    _ = j.columns
-                    from lsst.daf.relation import Join
-                    pj = Join(obj).partial(R)
-                    _ = pj.columns_required
-                    _ = Join(obj).partial(L, is_lhs=True).columns_required
-            except Exception as e:  # noqa: BLE001 - typing of the join is not this check's subject
-                notes["join"] = type(e).__name__
+            exercise_library(env, obj, declared)
             v_again = conv(obj)(restricted)
             obs.append(("callable on restricted row after library calls == meaning", zbool(v_again) == truth, {}))
         req2 = obj.columns_required
@@ -124,6 +111,27 @@ def run_shape(shape, tier):
     else:
         out["status"] = HOLDS
     return out
+
+
+def exercise_library(env, obj, declared):
+    """Library calls that receive the predicate: none of them may change a required-column set it returned earlier."""
+    from lsst.daf.relation import Join, Selection
+    from ..prog import add_abstract_leaf
+
+    it = env.engines["it1"]
+    sel = Selection(obj)
+    it.convert_predicate(sel.predicate)
+    _ = sel.columns_required
+    lcols = tuple(c for c in sorted(declared | {"a"}) if c != "c") or ("a",)
+    L = add_abstract_leaf(env, "L", lcols, "it1", None)
+    R = add_abstract_leaf(env, "R", ("a", "c"), "it1", None)
+    try:
+        if declared <= (set(lcols) | {"a", "c"}):
+            _ = L.join(R, obj).columns
+            _ = Join(obj).partial(R).columns_required
+            _ = Join(obj).partial(L, is_lhs=True).columns_required
+    except Exception:  # noqa: BLE001 - typing of the join is not this check's subject
+        pass
 
 
 def concrete_check(shape, row, bind):
@@ -159,6 +167,16 @@ def concrete_check(shape, row, bind):
             return True, "flatten changes meaning"
         if bool(py_of_lib(Selection(obj).predicate, row)) != truth:
             return True, "Selection normalisation changes meaning"
+    if is_pred:
+        exercise_library(env, obj, {t.qualified_name for t in req})
+        if frozenset(obj.columns_required) != frozenset(req):
+            return True, "columns_required changed by a library call"
+        try:
+            v2 = conv(obj)({env.tags[c]: row[c] for c in COLS if env.tags[c] in set(obj.columns_required)})
+        except KeyError:
+            return True, "columns_required insufficient after library calls"
+        if bool(v2) != truth:
+            return True, "callable differs from meaning after library calls"
     if frozenset(obj.columns_required) != frozenset(req):
         return True, "columns_required unstable"
     return False, ""
